@@ -5,7 +5,7 @@ import json
 
 CLAIMED = {
  "C01": ("exploration",
-   "model-based stateful PBT against an append-only list model: bounded-exhaustive histories over an 8-symbol alphabet + seeded-random histories (proptest, shrinking) + page-crossing histories (cores of 2-4 bitfield pages, clears placed relative to page edges); reopen differential",
+   "model-based stateful PBT against an append-only list model: bounded-exhaustive histories over an 8-symbol alphabet + seeded-random histories (proptest, shrinking) + page-crossing histories (cores of 2-4 bitfield pages, clears placed relative to page edges) + histories with one batch of 9-25 MiB; reopen differential",
    "Every history up to the stated length over the 8-symbol alphabet, plus seeded-random histories (incl. cores > 65536 blocks), is executed through the public API on harness-owned storage and compared after every step with a list model; observations before/after every reopen are compared as a pure differential. Exploration is the honest level: nothing is claimed beyond the enumerated bound and the sampled histories.",
    "trusts the instrumented in-memory backend (cross-validated against the stock memory/disk backends by C14) and the list model (harness/src/model.rs)"),
  "C02": ("fault_enumeration",
@@ -13,11 +13,11 @@ CLAIMED = {
    "For each generated history all crash points (journal prefixes) are enumerated (only inside calls that issue more than 96 storage operations - flushes of batches of hundreds of blocks - interior points are sampled every 16th, counted in the evidence); the recovered core must equal the model before or after the call in progress and stay usable. Histories are bounded-exhaustive for short lengths and seeded-random beyond; writer and replica (proof application) histories; plus crash chains (many crashes along one history).",
    "assumes each storage operation is atomic and durable in issue order (given by the statement); crashes before the first build() returned are out of scope"),
  "C03": ("exploration",
-   "writer/replica session PBT: exhaustive single-request family for all growth pairs n1<=n2<=N, all fetch orders for n<=5, seeded-random sessions (proptest) incl. multi-page writers with page-edge clears, replica model from the writer's blocks, convergence loop",
+   "writer/replica session PBT: exhaustive single-request family for all growth pairs n1<=n2<=N, all fetch orders for n<=5, seeded-random sessions (proptest) incl. multi-page writers with page-edge clears and seeks over the writer's whole byte length whenever the request upgrades, replica model from the writer's blocks, convergence loop",
    "Honest requests of every shape are generated from the replica's own state; every created proof must be accepted and the replica must equal the model derived from the writer's data, across replica reopen, ending with the standard fetch-everything loop.",
    "writer-side Err is treated as 'no proof' (documented refusals), counted per request shape in the evidence"),
  "C04": ("exploration",
-   "complete single-field proof alteration set + random 2-4 combinations + systematic forgeries (second writer/other key, substituted block with recomputed parents, exchanged signatures, replays, section grafts, hash bytes moved between sibling nodes) against replica snapshots; refused=>unchanged, accepted=>only signed data + second-step forgeries still refused + convergence oracle; libFuzzer target in thorough",
+   "complete single-field proof alteration set + random 2-4 combinations + systematic forgeries (second writer/other key, substituted block with recomputed parents, exchanged signatures incl. the signature the replica itself holds replayed on a forged upgrade, replays, section grafts, hash bytes moved between sibling nodes) against replica snapshots; refused=>unchanged, accepted=>only signed data + second-step forgeries still refused + convergence oracle; libFuzzer target in thorough",
    "For honest proofs of every request shape (exhaustive single-request family for small logs, seeded-random sessions beyond) every single-field alteration is generated and applied to a byte copy of the replica; a refused proof must leave observation and stored state unchanged, an accepted one must leave only writer-signed data and honest replication must still converge.",
    "size fields of the bottom node of hash-only and seek sections are excluded by construction (counted in the evidence), as in the statement; Ed25519/BLAKE2b are trusted"),
  "C07": ("fault_enumeration",
@@ -29,16 +29,16 @@ CLAIMED = {
    "create_proof and verify_and_apply_proof are called with peer-controlled values from the boundary sets of the statement (complete product in thorough) and with generated arbitrary/altered proofs; any panic, abort or confirmed hang is a violation; afterwards the core must still answer.",
    "numeric fields below 2^40 and 32-byte node hashes (what the wire decoder yields); a hang is reported as violation only after confirmation in an isolated subprocess"),
  "C10": ("fault_enumeration",
-   "single-fault injection at every storage operation index (reads and length queries included) x generated writer and replica histories, also starting from crashed (incl. torn) storage and for re-creation with overwrite; error-surfacing + reopen before-or-after + usability oracle",
+   "single-fault injection at every storage operation index (reads and length queries included) x generated writer and replica histories, also starting from crashed (incl. torn) storage, for re-creation with overwrite, for the creating build itself (operations failing without effect or after a byte prefix of a write) and around batches that take the oplog over its 64 KiB budget; error-surfacing + reopen before-or-after + usability oracle",
    "For each generated history a dry run counts the storage operations; the history is re-run once per operation index with that operation failing. All indices are enumerated, histories are bounded-exhaustive for short lengths and seeded-random beyond.",
    "the failing operation has no effect on the store; one fault per run"),
  "C05": ("exploration",
-   "differential against an independent re-implementation of the Hypercore v10 Merkle/signature scheme over generated block sequences: all lengths 0..70 x size patterns x build modes + seeded-random sequences + replicas + every crash state + reference-signed virtual logs (sizes beyond 2^32) served to the crate; persisted nodes, header/entry signatures and proof nodes compared",
+   "differential against an independent re-implementation of the Hypercore v10 Merkle/signature scheme over generated block sequences: all lengths 0..70 x size patterns x build modes + seeded-random sequences + replicas + every crash state + reference-signed virtual logs (sizes beyond 2^32) served to the crate + logs of 131071..262143 blocks (17-18 roots); persisted nodes, header/entry signatures and proof nodes compared",
    "Every full tree node persisted by the crate (tree file overlaid with unflushed oplog entry nodes), the stored root hash and every stored or served signature is compared with / verified against a reference computed by independent code at every operation boundary.",
    "shares only the BLAKE2b, Ed25519 (verify_strict) and CRC32 primitives with the crate; flat-tree arithmetic, hashing layout, signable and file parsing are independent"),
  "C06": ("exploration",
    "differential in both directions against an independent reader/writer of the JavaScript on-disk layout (generated histories dumped at every operation boundary; generated JS-valid storages opened by the crate, then used, with every crash point of the first operation after opening) + the golden five-step interop scenario with certified SHA-256 hashes",
-   "Direction 1: an independent layout reader reconstructs the state from the raw files after every generated operation and must agree with the API. Golden: the crate alone must reproduce the file hashes certified against JavaScript. Direction 2: an independent writer synthesises JS-valid storage (slot rotations, partial/stale/torn tails) that the crate must open to the reference state.",
+   "Direction 1: an independent layout reader reconstructs the state from the raw files after every generated operation and must agree with the API. Golden: the crate alone must reproduce the file hashes certified against JavaScript. Direction 2: an independent writer synthesises JS-valid storage (slot rotations, complete batches of partial-flagged entries, fork counters above 0, partial/stale/torn tails) that the crate must open to the reference state.",
    "the JavaScript implementation is not available offline; the layout rules of the property text and the certified hashes of tests/js_interop.rs are the reference; header shape limited to version 1 with manifest and key pair sections"),
  "C08": ("exploration",
    "model-based PBT at page-crossing scale: writer histories with 8191..65537-block batches, page-straddling clears, reopen and generated crash-recovery steps; replicas fetching blocks pages apart with replica-side clears (incl. ranges from inside an untouched page into a held one); has() swept over all indices + boundary probes, contiguous_length against the model",
@@ -50,18 +50,18 @@ CLAIMED = {
    "valid encodings and their prefixes only (arbitrary bytes may legitimately make the dependency allocate)"),
  "C12": ("exploration",
    "model-based PBT + raw-byte scan of all four files for the secret key + byte-for-byte file comparison around refused calls + crash-point enumeration inside make_read_only + rebuilds on existing storage with the full / public-only key pair",
-   "Histories with make_read_only at generated positions (bounded-exhaustive over 9 symbols, then random) on writers and replicas; files are scanned for the key after the call and after every later operation; every crash point of histories containing the call is enumerated.",
+   "Histories with make_read_only at generated positions (bounded-exhaustive over 9 symbols, then random) on writers and replicas; every append call on a core without secret key, the empty batch included, must return the not-writable error and change nothing; files are scanned for the key after the call and after every later operation; every crash point of histories containing the call is enumerated.",
    "fixed test key pair; the scan looks for the 32-byte secret and both of its 16-byte halves"),
  "C13": ("exploration",
-   "event-trace oracle over generated writer and replica histories (incl. altered, wrong-fork and replayed proofs, injected storage faults) with 0..4 subscribers, drained after every call",
+   "event-trace oracle over generated writer and replica histories (incl. altered, wrong-fork and replayed proofs, injected storage faults) with 0..4 subscribers drained after every call plus one lazy subscriber read only at the end (must hold the same events in operation order; suffix after a channel overflow); long writer histories with batches of 300-1900 blocks",
    "For every call of generated histories the exact list of events every subscriber must have seen is computed from the model and compared, including refused/altered proofs and failing calls.",
    "calls the statement does not mention (missing_nodes, clear) are only required not to announce availability"),
  "C14": ("exploration",
-   "differential across storage backends (instrumented memory, journaled, stock random-access-memory with several page sizes, stock disk in a scratch directory, with and without the sparse feature) x node cache configurations (off, default, 3 nodes) over generated histories with honest and arbitrary peer requests, altered proofs and re-creation with overwrite (reference: brand-new storage) + enumerated refused-request-then-growth scenarios: all step results, complete proofs and file bytes compared",
+   "differential across storage backends (instrumented memory, journaled, stock random-access-memory with several page sizes, stock disk in a scratch directory, with and without the sparse feature) x node cache configurations (off, default, 3 nodes, and per history one of capacity 0 / one node / time-to-live only / time-to-idle only) over generated histories with honest and arbitrary peer requests, altered proofs and re-creation with overwrite (reference: brand-new storage) + enumerated refused-request-then-growth scenarios: all step results, complete proofs and file bytes compared",
    "The same generated history (writer ops and replication steps, one key pair) runs on every configuration; any difference in a result or in a file byte is a violation.",
-   "physical allocation is not compared (punched holes read back as zeros); thorough additionally runs a build without the sparse feature"),
+   "physical allocation is not compared (punched holes read back as zeros); thorough additionally runs a build without the sparse feature; a watchdog-confirmed hang counts as violation only if a second subprocess shows the reference configuration completing the same history"),
  "C15": ("exploration",
-   "deterministic single-threaded scheduler over a yielding backend: ALL schedules (stateless DFS) for 2 tasks x <=2 calls, seeded-random programs/schedules beyond, plus a stage that forces the mutex into FIFO hand-over so every lock acquisition is preemptible; tagged-journal atomicity + sequential-replay linearizability oracle with search over real-time-consistent orders",
+   "deterministic single-threaded scheduler over a yielding backend: ALL schedules (stateless DFS) for 2 tasks x <=2 calls, seeded-random programs/schedules beyond, plus a stage that forces the mutex into FIFO hand-over so every lock acquisition is preemptible; call alphabet incl. refused proofs and clears; deadlock detection (no ready task while tasks are unfinished); tagged-journal atomicity + sequential-replay linearizability oracle with search over real-time-consistent orders",
    "SharedCore is driven by a scheduler that owns every preemption point (each storage operation and each call boundary); every execution must be equal to some sequential order of its calls and no call's storage operations may interleave with another's.",
    "task interleavings only (no OS-thread races); async_lock's wall-clock fairness can change the winner of the lock, not the oracle's verdict"),
 }
